@@ -51,11 +51,6 @@ theorem below_len {n : Name} {p : Path} (h : below n p = true) : 2 < p.length :=
   | nil => simp at hne
   | cons a b => simp [layerPath]
 
-theorem tomlName_ne (n : Name) : tomlName n ≠ n := by
-  intro h
-  have := congrArg List.length h
-  simp [tomlName] at this
-
 theorem sbomName_ne (n : Name) (e : Bytes) : sbomName n e ≠ n := by
   intro h
   have := congrArg List.length h
@@ -76,11 +71,6 @@ theorem tomlPath_not_sbom (n : Name) : tomlPath n ∉ sbomPaths n := by
   obtain ⟨e, _, he⟩ := List.mem_map.mp h
   simp [tomlPath] at he
   exact sbomName_ne_toml n e he
-
-theorem tomlPath_ne_layerPath (n : Name) : tomlPath n ≠ layerPath n := by
-  intro h
-  simp [tomlPath, layerPath] at h
-  exact tomlName_ne n h
 
 /-- after a successful deletion the directory cannot be "already there" -/
 theorem isDirB_absent (root : Bool) (s : FS) (d x : Name) (hd : isDirAt s [d] = true) (hn : fget s [d, x] = none) :
@@ -224,8 +214,19 @@ theorem request_recreated_lemma (root : Bool) (api : Api) (t : FS) (n : Name) (h
           · cases hok
           · rename_i hgar
             simp only [hgar, if_false]
+            have hnh1 : isHardAt s1 (layerPath n) = false := by
+              cases hh : isHardAt s1 (layerPath n) with
+              | false => rfl
+              | true =>
+                exfalso
+                rcases deleteLayer_hard_fails root s1 n hd1 hh with h | h <;>
+                  · generalize deleteLayer root s1 n = r at h hok
+                    obtain ⟨res, s2⟩ := r
+                    simp only at h
+                    subst h
+                    simp at hok
             have hgone := deleteLayer_gone root s1 n hd1 hb1
-            have hfr := deleteLayer_frame root s1 n hd1
+            have hfr := deleteLayer_frame root s1 n hd1 hnh1
             generalize deleteLayer root s1 n = r at hgone hfr hok
             obtain ⟨res, s2⟩ := r
             cases res with
